@@ -1,3 +1,6 @@
+// replay for property C13, harness c13_crossover_shortcut (/verif/harness/pocketscion/c13_router.rs)
+// failed checks reported by CBMC:
+//   "valid shortcut crossover (up -> down at a common non-core AS) not forwarded" @ ../harness/pocketscion/c13_router.rs:407:13 in function network::scion::routing::spec::verif_c13::crossover_shortcut
 //! verif-attach: file=crates/pocketscion/src/network/scion/routing/spec.rs crate=pocketscion mod=verif_c13
 //!
 //! C13 — the simulated data plane, one AS at a time: `StdRoutingLogic::handle_standard_path`,
@@ -417,3 +420,51 @@ fn crossover_shortcut() {
 fn c13_crossover_shortcut() {
     crossover_shortcut()
 }
+
+#[cfg(test)]
+mod verif_playback {
+    use super::*;
+/// Test generated for harness `network::scion::routing::spec::verif_c13::c13_crossover_shortcut` 
+///
+/// Check for `assertion`: ""valid shortcut crossover (up -> down at a common non-core AS) not forwarded""
+///
+/// # Warning
+///
+/// Concrete playback tests combined with stubs or contracts is highly
+/// experimental, and subject to change.
+///
+/// The original harness has stubs which are not applied to this test.
+/// This may cause a mismatch of non-deterministic values if the stub
+/// creates any non-deterministic value.
+/// The execution path may also differ, which can be used to refine the stub
+/// logic.
+
+#[test]
+fn kani_concrete_playback_c13_crossover_shortcut_14614898344710206151() {
+    let concrete_vals: Vec<Vec<u8>> = vec![
+        // 65534
+        vec![254, 255],
+        // 1
+        vec![1, 0],
+        // 258
+        vec![2, 1],
+        // 65535
+        vec![255, 255],
+        // 1426341803
+        vec![171, 63, 4, 85],
+        // 1426342038
+        vec![150, 64, 4, 85],
+        // 65281
+        vec![1, 255],
+        // 257
+        vec![1, 1],
+    ];
+    let mut concrete_vals = concrete_vals;
+    concrete_vals.extend(std::iter::repeat(vec![0u8]).take(8192));
+    kani::concrete_playback_run(concrete_vals, c13_crossover_shortcut);
+}
+}
+
+// native replay (full trace; cargo kani playback, dev profile, real code):
+//   kani_concrete_playback_c13_crossover_shortcut_14614898344710206151: reproduced (valid shortcut crossover (up -> down at a common non-core AS) not forwarded)
+// re-run: bin/check C13 --replay /verif/replays/C13/c13_crossover_shortcut.rs
